@@ -77,30 +77,30 @@ Theorem C17_bisection_step_count_exists : forall (pr : @oc_params R) (w : R), 0 
 Proof. exact halvings_exist. Qed.
 Print Assumptions C17_bisection_step_count_exists.
 
-(* the bracket-growing loop of the repaired code (finding F19): it ends (k steps suffice once l2init * 10^k >= 1e300,
+(* the bracket-growing loop of the repaired code (finding F19): it ends (k steps suffice once l2init * 10^k >= 1e40,
    and such a k exists for every positive l2init), and whenever the target volume is reachable from below within the
-   move limits -- sum_i max(xmin_i, x_i - move) <= maxvol -- the grown multiplier (unless it hit 1e300) gives a
+   move limits -- sum_i max(xmin_i, x_i - move) <= maxvol -- the grown multiplier (unless it hit 1e40) gives a
    volume <= maxvol, i.e. the bisection starts bracketed from above *)
 Theorem C17_bracket_growing_terminates : forall (pr : @oc_params R) maxvol (x g : list R) k fuel l2 xn0,
-  10 ^ 300 <= l2 * 10 ^ k -> (k <= fuel)%nat -> grow ROOps pr maxvol x g fuel l2 xn0 <> GrowOutOfFuel.
+  10 ^ 40 <= l2 * 10 ^ k -> (k <= fuel)%nat -> grow ROOps pr maxvol x g fuel l2 xn0 <> GrowOutOfFuel.
 Proof. exact grow_terminates. Qed.
 Print Assumptions C17_bracket_growing_terminates.
 
-Theorem C17_bracket_growing_step_count_exists : forall l2 : R, 0 < l2 -> exists k : nat, 10 ^ 300 <= l2 * 10 ^ k.
+Theorem C17_bracket_growing_step_count_exists : forall l2 : R, 0 < l2 -> exists k : nat, 10 ^ 40 <= l2 * 10 ^ k.
 Proof. exact growth_steps_exist. Qed.
 Print Assumptions C17_bracket_growing_step_count_exists.
 
 Theorem C17_bracket_growing_reaches_volume : forall (pr : @oc_params R) maxvol (x g : list R) fuel l2 l2g xng,
   in_box pr x -> 0 <= move pr -> length g = length x ->
   grow ROOps pr maxvol x g fuel l2 (oc_xnew ROOps pr l2 x g) = GrowDone l2g xng ->
-  osum ROOps (oc_lower ROOps pr x) <= maxvol -> l2g < 10 ^ 300 ->
+  osum ROOps (oc_lower ROOps pr x) <= maxvol -> l2g < 10 ^ 40 ->
   xng = oc_xnew ROOps pr l2g x g /\ osum ROOps (oc_xnew ROOps pr l2g x g) <= maxvol.
 Proof. exact grow_brackets. Qed.
 Print Assumptions C17_bracket_growing_reaches_volume.
 
 (* "volume equal to the prescribed maximum to bisection tolerance whenever reachable within the move limits":
    one OC step (growing + bisection).  If the volume is reachable from below within the move limits, the multiplier
-   did not hit 1e300 and the lower end of the interval moved (reachable from above inside the interval), the new
+   did not hit 1e40 and the lower end of the interval moved (reachable from above inside the interval), the new
    design is the update at one end of a final interval [a, b] with b - a <= l1l2tol and vol(b) <= maxvol < vol(a),
    so its volume differs from maxvol by at most vol(a) - vol(b) *)
 Theorem C17_volume_to_bisection_tolerance_partial : forall (pr : @oc_params R) maxvol (x g : list R) gfuel bfuel l2g xng a b xnew,
@@ -108,7 +108,7 @@ Theorem C17_volume_to_bisection_tolerance_partial : forall (pr : @oc_params R) m
   0 <= l1init pr <= l2init pr ->
   grow ROOps pr maxvol x g gfuel (l2init pr) (oc_xnew ROOps pr (l2init pr) x g) = GrowDone l2g xng ->
   bisect ROOps pr maxvol x g bfuel (l1init pr) l2g (Some xng) = BisDone a b (Some xnew) ->
-  osum ROOps (oc_lower ROOps pr x) <= maxvol -> l2g < 10 ^ 300 -> a <> l1init pr ->
+  osum ROOps (oc_lower ROOps pr x) <= maxvol -> l2g < 10 ^ 40 -> a <> l1init pr ->
   let vol := fun lam => osum ROOps (oc_xnew ROOps pr lam x g) in
   l1init pr < a <= b /\ b - a <= l1l2tol pr /\
   (xnew = oc_xnew ROOps pr a x g \/ xnew = oc_xnew ROOps pr b x g) /\
